@@ -122,3 +122,16 @@ Definition to_standard_form (L : linmodel) : serr + stdmodel :=
       end
     end
   end.
+
+(* ---------- well-formedness of the input as a boolean (the premise of the C13 transfer theorems): every row and the
+   objective have one finite coefficient per variable, right-hand sides are finite, Real bounds are numbers or the
+   matching infinity, NonNegativeReal lower bounds are numbers *)
+Definition lo_okb (x : xq) : bool := match x with Fin _ | NInf => true | _ => false end.
+Definition hi_okb (x : xq) : bool := match x with Fin _ | PInf => true | _ => false end.
+Definition dom_okb (dom : list (string * vtype)) : bool :=
+  forallb (fun p => match snd p with TReal a b => lo_okb a && hi_okb b | TNonNegativeReal a b => xq_is_finite a && hi_okb b | _ => true end) dom.
+Definition coeffs_okb (n : nat) (cs : list xq) : bool := Nat.eqb (List.length cs) n && forallb xq_is_finite cs.
+Definition lin_okb (L : linmodel) : bool :=
+  forallb (fun r => coeffs_okb (List.length (lm_vars L)) (lr_coeffs r) && xq_is_finite (lr_rhs r)) (lm_rows L)
+  && coeffs_okb (List.length (lm_vars L)) (lm_objective L) && dom_okb (lm_domain L).
+
